@@ -71,6 +71,14 @@ def next_run_reuse(c):
     return {"text": txt, "facts_now": local_facts(c["now"])}
 
 
+def next_run_ticking(c):
+    """the clock keeps running during the call (it is started a few microseconds before a local midnight)"""
+    with time_machine.travel(float(c["now"]), tick=True):
+        try: txt = tools.pretty_next_run(c["start"], {DAYS[i] for i in c["days"]})
+        except Exception: txt = "raised"
+    return {"text": txt, "facts_before": local_facts(int(c["midnight"]) - 1), "facts_after": local_facts(int(c["midnight"]))}
+
+
 def create_readback(c):
     """create_schedule against a scripted device, capture the record, list it back as a device would"""
     import world
@@ -89,7 +97,7 @@ def create_readback(c):
             "facts_now": local_facts(c["now"])}
 
 
-JOBS = {"duration": duration, "schedules": schedules, "clock": clock, "decode": decode, "next_run": next_run, "next_run_reuse": next_run_reuse, "create_readback": create_readback,
+JOBS = {"duration": duration, "schedules": schedules, "clock": clock, "decode": decode, "next_run": next_run, "next_run_reuse": next_run_reuse, "next_run_ticking": next_run_ticking, "create_readback": create_readback,
         "facts": lambda c: local_facts(c["t"]),
         "schedules_nodisplay": lambda c: schedules(c, False)}
 def with_zone(f, c):
